@@ -61,8 +61,8 @@ CHECKS = {
              'the unrolled program. run_jaqal_circuit and parse_jaqal_output_list (on an output list of that length, '
              'strings and ints alternating) run under a CPU watchdog; TLC validates the visit sequence (readouts and hook '
              'H1), readout numbering, attribution, frequencies, non-zero probability of samples, termination.',
-        note='Asserted domain: programs C12 accepts in which every unrolled prepare/measure pair is a flat pair. One open '
-             'known finding (readout per prepare reached).',
+        note='Asserted domain: programs C12 accepts in which every unrolled prepare/measure pair is a flat pair.'
+             ' The transcription of the walker (WalkAlg) is model-checked for Safety, PrefixOK and Termination on 8 trees.',
         design='5/C08', technique='TLA+ walk semantics (Unroll/VisitsOf) + TLC-enumerated programs replayed into emulator and output parser + TLC trace validation'),
     'C12': dict(
         text='ExecEnum enumerates all placements of prepare_all / measure_all / a gate / subcircuit blocks over nested '
@@ -75,14 +75,16 @@ CHECKS = {
         text='For every subcircuit and readout of the C03 and C08 runs (emulator and hardware-output parser) TLC checks the '
              'views recorded from the result objects: as_str has n characters with qubit 0 leftmost, string keys enumerate '
              'all 2^n outcomes in integer order, string and integer views agree, probabilities are normalised, string and '
-             'integer hardware outputs are interpreted identically, frequencies count the readouts.',
+             'integer hardware outputs are interpreted identically, frequencies count the readouts; the same programs are also '
+             'executed twice (site rerun) and over gate matrices that are unitary to 8 digits only (site approx: views must '
+             'still be normalised and the sampler must not fail).',
         note='n in {2,3}; normalisation judged in floating point with 1e-9.',
         design='5/C15', technique='TLA+ bit-order operators + recorded result views validated by TLC'),
     'C01': dict(
         text='Machine view (Conform_RT): state (circuit, text), actions Generate and Parse. TLC enumerates programs with the AstEnum '
              'machine over headers with int / negative / float / exponent-repr / 10^16 literals, a let-sized register, strided '
              'let-bounded slices, single-qubit and whole aliases, an import, a macro with a parameter-indexed qubit, nested '
-             'seq/par/loop/subcircuit with literal and let counts. Each program is built through the parser and through the '
+             'seq/par/loop/subcircuit with literal (also zero) and let counts. Each program is built through the parser and through the '
              'builder; generate -> parse -> generate is recorded and TLC validates that the SPEC lexer (JaqalLex) and grammar '
              '(JaqalParse) accept the generated text, that the real parser accepts it, that the re-parsed circuit projects to the '
              'identical AST, compares == and has the same meaning, and that the second text equals the first.',
@@ -111,7 +113,7 @@ CHECKS = {
              'fill_in_map, expand_macros} up to length 3 (quick) / 4 and programs in which all four passes have work to do; every '
              'history is replayed on a fresh parse under 4 override dictionaries; TLC (Conform_Lib) validates each call with the '
              'pass clauses, idempotence of repeated calls, legality of every result (nesting, and re-parse of its generated text '
-             'to equal meaning), equality of meaning of all orders of one pass set (commute), and parser flags vs explicit passes.',
+             'to equal meaning; a third configuration spends 1500 programs on legality alone), equality of meaning of all orders of one pass set (commute), and parser flags vs explicit passes.',
         note='fill_in_map before fill_in_let is compared only without overrides (Applicable). One open known finding (nested '
              'sequential block left by expand_subcircuits).',
         design='5/C10', technique='TLA+ library-call history machine; TLC-enumerated histories replayed; TLC trace validation per call and per pass set'),
@@ -125,7 +127,7 @@ CHECKS = {
         design='5/C11', technique='TLA+ history machine with frame condition; TLC-enumerated histories replayed on a shared object; TLC trace validation'),
     'C13': dict(
         text='ExecEnum enumerates parallel blocks with gate / sequential-block branches over 3 qubits named directly, through an '
-             'alias and through a macro parameter, idle gates; TLC validates (i) rejection exactly when two branches overlap '
+             'alias and through a macro parameter (also through nested macro calls whose formals share names), idle gates; TLC validates (i) rejection exactly when two branches overlap '
              '(JaqalExec!Overlap), (ii) get_used_qubit_indices of the circuit and of every top-level statement = UsedOf (busy = '
              'all, idle = none), (iii) order independence: every program is also run with the branches of all parallel blocks '
              'reversed and both state vectors must equal the specification\'s.',
@@ -134,7 +136,7 @@ CHECKS = {
     'C14': dict(
         text='AstEnum enumerates programs with references that may be invalid (indices -1 / size-1 / size as literal, let, '
              'override, macro argument; slices outside the source, zero step, alias or index of a let, duplicates, undefined names, '
-             'unknown gates, wrong arity / kinds under the exact gate set) x 6 override dictionaries; each pair goes through '
+             'unknown gates, wrong arity / kinds under the exact gate set, a macro register parameter that shadows a register) x 6 override dictionaries; each pair goes through '
              'parse -> fill_in_let -> expand_macros -> run; TLC decides validity on the MODEL program (ValidAll) and validates: '
              'invalid => JaqalError at some stage, literal violations already at parse, valid (under declared and overriding '
              'values) => accepted, accepted => every applied gate acts on the resolved qubits.',
@@ -142,7 +144,8 @@ CHECKS = {
         design='5/C14', technique='TLA+ static validity (ValidAll, LiteralInvalid); TLC-enumerated programs replayed through the pipeline; TLC validation'),
     'C16': dict(
         text='(a) every character string of LexEnum (<= 3-4 chars over 15 representative characters), every token string of '
-             'ParseEnum and ~1200 mutated example files go through parse_jaqal_string and run_jaqal_string under a CPU watchdog; '
+             'ParseEnum (each also with its numeric tokens respelled at the edge of their class: overflowing / underflowing floats, '
+             'signed zero, > 64-bit integers) and ~1200 mutated example files go through parse_jaqal_string and run_jaqal_string under a CPU watchdog; '
              'TLC classifies each text with the spec lexer/grammar and validates exception types, positions, termination. '
              '(b) TLC enumerates every history of the JaqalProcess machine over a pool of 8 texts (valid, 3 syntax-error kinds, '
              'semantic error, static error, missing and present pulse module; importlib.util pre-imported or not), each history '
@@ -161,19 +164,20 @@ CHECKS = {
         text='TLC enumerates the GateCallEnum machine: every signature of <= 2 (quick) / 3 parameters over 5 kinds x every argument '
              'list over 14 value classes incl. one too many / too few; a real GateDefinition is called positionally, by keyword '
              'and with broken keyword sets; TLC validates acceptance against JaqalGateDef!CallOK, exception types and '
-             'positional/keyword agreement; for the exact gate family it validates derived idle gates and the matrices of '
-             'stretched gates against JaqalExec!Mat.',
+             'positional/keyword agreement; for the exact gate family it validates derived idle gates, the matrices of '
+             'stretched gates against JaqalExec!Mat, and the idle companions of stretched gates (stretched_gates over a set with idle gates).',
         note='Value classes are represented by one object each.',
         design='5/C18', technique='TLA+ Fits/CallOK table; TLC-enumerated calls replayed into GateDefinition; TLC validation'),
     'C19': dict(
         text='AstEnum enumerates alternating sequential/parallel nestings to depth 4 (unequal branches, empty blocks, subcircuit '
              'blocks, loops also inside parallel blocks); TLC validates flat normal form, equality of the unit-time schedule '
              '(JaqalSem!Schedule as a bag of (gate instance, time step)), rejection of loops in parallel blocks, header and imports.',
-        note='A loop is an opaque one-slot item on both sides. One open known finding (subcircuit annotations are flattened away).',
+        note='A loop is an opaque one-slot item on both sides. ',
         design='5/C19', technique='TLA+ schedule semantics; TLC-enumerated nestings replayed into the normaliser; TLC validation'),
     'C20': dict(
         text='Every enumerated program is paired with itself and with each single-point mutant (gate name, argument, qubit index, '
-             'loop / subcircuit count, annotation, block kind, alias bound, register size, let value, dropped argument); both are '
+             'loop / subcircuit count, annotation, block kind, alias bound, register size, let value, dropped argument) and with pairs that differ in one numeric literal whose two values CPython '
+             'hashes alike (-1/-2, 0/2^61-1, 1/2^61); both are '
              'parsed, == is evaluated both ways plus reflexivity and text round trip; TLC computes for the pair whether '
              'declarations and Meaning are identical and validates reflexive, symmetric, roundtrip, eq_implies_same, '
              'diff_implies_neq.',
